@@ -453,7 +453,7 @@ def real_confidence(cfg, inp):
             scs.append([float(x) for x in c["scores"]])
         old = (C.CONFIDENCE_CHUNK_SIZE, C.peps_from_scores)
         C.CONFIDENCE_CHUNK_SIZE = int(inp["confidence_chunk"])
-        C.peps_from_scores = lambda s, t, a="qvality": np.full(len(s), 0.5)
+        C.peps_from_scores = __import__("checks.conflib", fromlist=["x"]).real_pep_stub
         try:
             mokapot.assign_confidence(pss, max_workers=1, scores=[np.array(x, dtype=float) for x in scs], descs=[True] * len(pss), dest_dir=Path(out),
                                       prefixes=inp["prefixes"], decoys=bool(inp["decoys"]), deduplication=bool(inp["deduplication"]), do_rollup=bool(inp["do_rollup"]))
@@ -533,7 +533,7 @@ def real_rollup(cfg, inp):
         conf.level, conf.src_dir, conf.dest_dir, conf.file_root = base_level, src, dst, "rollup"
         conf.qvalue_algorithm, conf.peps_algorithm = "tdc", "qvality"
         old = R.peps_from_scores
-        R.peps_from_scores = lambda s, t, a="qvality": np.full(len(s), 0.5)
+        R.peps_from_scores = __import__("checks.conflib", fromlist=["x"]).real_pep_stub
         try:
             R.do_rollup(conf)
         except Exception as ex:
